@@ -39,6 +39,15 @@ function program() {
     Alias("Ext", I(Ref("Plain"), ObjT([Prop("b", P("number"))]))),
     Alias("NodeA", ObjT([Prop("n", U(Ref("NodeB"), P("null")))])),
     Alias("NodeB", I(Ref("NodeA"), ObjT([Prop("tag", L("b"))]))),
+    // mutual recursion with an inline discriminated union of unnamed variants that refer back to both types (the
+    // synthetic variant names must not depend on which type the printing started from)
+    Alias("Drive", ObjT([Prop("label", P("string")), Prop("root", Ref("Folder"))])),
+    Alias("Folder", ObjT([Prop("name", P("string")), Prop("entries", ArrT(U(ObjT([Prop("kind", L("file"))]), ObjT([Prop("kind", L("folder")), Prop("folder", Ref("Folder"))]), ObjT([Prop("kind", L("mount")), Prop("drive", Ref("Drive"))]))))])),
+    // a named type whose body refers to a named type that an earlier member of the same parser has registered already
+    // (nothing new is stored while its body is printed) and that is later printed alone into another context
+    Alias("Address", ObjT([Prop("street", P("string"))])),
+    Alias("Customer", ObjT([Prop("name", P("string")), Prop("addr", Ref("Address"))])),
+    Alias("Order", ObjT([Prop("billTo", Ref("Address")), Prop("buyer", Ref("Customer"))])),
     // a named type that cannot be printed (Map) next to printable ones: the throw must not poison the context
     Alias("HasMap", ObjT([Prop("m", MapT(P("string"), P("number"))), Prop("plain", Ref("Plain"))])),
   ];
@@ -70,6 +79,10 @@ function program() {
     ["P24", Ref("Child2")],
     ["P25", ObjT([Prop("e", Ref("Ext")), Prop("b", Ref("NodeB"), true)])],
     ["P26", Ref("NodeA")],
+    ["P27", Ref("Drive")],
+    ["P28", Ref("Folder")],
+    ["P29", Ref("Order")],
+    ["P30", Ref("Customer")],
     ["POverride", Ref("Override")],
   ];
   return { decls, parsers };
